@@ -1719,6 +1719,10 @@ class SpaceUpdater(SharedSpaceOperations):
 
         self._update_manager()
 
+        if not parent.is_model():
+            # ItemSpaces holding dynamic copies of the parent lack the child
+            parent.clear_subs_rootitems()
+
         return space
 
     def _check_member_conflict(self, node):
